@@ -10,7 +10,7 @@ BUILD=$(python3 -c "import json,sys; print(json.load(open('$D/meta.json')).get('
 FLAGS=$(echo "$BUILD" | tr ' ' '\n' | grep -E '^-(D[A-Za-z_0-9=]+|m[a-z0-9.]+|std=[a-z+0-9]+|O[0-3s])$' | tr '\n' ' ')
 if git apply --check $D/patch.diff 2>/dev/null; then AP=yes; else AP=no; fi
 git apply $D/patch.diff 2>/dev/null
-cmake --build _build -j16 >/tmp/confirm_build.log 2>&1; BRC=$?
+rm -rf _build; cmake -G Ninja -B _build -S . -DCMAKE_BUILD_TYPE=RelWithDebInfo -DCMAKE_CXX_FLAGS=-Wno-error -DGLM_BUILD_TESTS=ON >/dev/null 2>&1; cmake --build _build -j16 >/tmp/confirm_build.log 2>&1; BRC=$?
 SUITE=$(ctest --test-dir _build -j16 2>&1 | grep -oE "[0-9]+% tests passed, [0-9]+ tests failed out of [0-9]+")
 g++ $FLAGS -w -I$WT $D/demo.cpp -o /tmp/confirm_demo 2>/tmp/confirm_demo.err; DRC=$?
 /tmp/confirm_demo >/tmp/confirm_with.out 2>&1; W=$?
